@@ -322,6 +322,16 @@ pub mod spec {
             f32_le(0.0f32, f_max_value()), f32_le(0.0f32, f_infinity()), f32_le(f_min_value(), 0.0f32), f32_le(f_neg_infinity(), 0.0f32);
     /// f32::clamp as std implements it: NaN passes through; panics unless min <= max (which excludes NaN bounds)
     pub open spec fn f_clamp(x: f32, lo: f32, hi: f32) -> f32 { if f32_lt(x, lo) { lo } else if f32_gt(x, hi) { hi } else { x } }
+    // R14: the additive identity std's `impl Sum for f32` starts from (0.0 or -0.0 depending on the toolchain): the wrapper's body is the empty sum itself
+    pub uninterp spec fn f_sum_identity() -> f32;
+    #[verifier::external_body]
+    pub fn f32_sum_identity() -> (r: f32) ensures r == f_sum_identity() { let e: [f32; 0] = []; e.iter().sum() }
+    /// the left-to-right f32 sum of the first k elements, starting from std's identity
+    pub open spec fn fsum(s: Seq<f32>, k: nat) -> f32
+        decreases k,
+    {
+        if k == 0 || k > s.len() { f_sum_identity() } else { f32_add(fsum(s, (k - 1) as nat), s[k - 1]) }
+    }
     // R13: `v.sort_by(|a, b| a.partial_cmp(b).unwrap())` and `v.sort_by(|a, b| a.total_cmp(b))` -- wrappers whose bodies are these calls.
     // ASSUMED (std: stable sort by the comparator): the result is a permutation of the input, ordered by the comparator; for bool the
     // comparator is false < true; for f32 total_cmp is an uninterpreted total preorder `f_total_le`.
